@@ -74,7 +74,7 @@ def clone_function(f):
 def job(j):
     date, seed, tid, groups, nrules, work = j
     rnd = random.Random(seed)
-    df, P = make_population(date, rnd, k=3)
+    df, P = make_population(date, rnd, k=2, rich=True)
     info = {"tid": tid, "date": date, "n": len(df), "persons": P, "runs": [], "errors": []}
     params, functions = gs.env(date)
     nodes, args = runs.nonderived_nodes(date, df)
@@ -153,7 +153,7 @@ def inplace_job(j):
     (the same handle's siblings, the environment set up before, an environment set up afterwards)."""
     date, seed, tid, groups, work = j
     rnd = random.Random(seed)
-    df, P = make_population(date, rnd, k=3)
+    df, P = make_population(date, rnd, k=2, rich=True)
     info = {"tid": tid, "date": date, "n": len(df), "persons": P, "runs": [], "errors": [], "inplace": True}
     p1, f1 = gs.fresh_env(date)
     nodes, args = runs.nonderived_nodes(date, df)
